@@ -171,7 +171,7 @@ func runC14(c *Ctx) error {
 	// corpus first: witnesses of the repaired defect
 	corpus := []string{"}}{{", "x{{a}}", "{{a}}{{a}}", "x}}{{a}}", "{{b}}}}", "{{", "}}", "{{}}", "{{{a}}}", "{{a}}}", "{{{{a}}}}"}
 	values = append(values, corpus...)
-	maxLen := c.Pick(3, 5)
+	maxLen := c.Pick(3, 4)
 	var rec func(prefix string, n int)
 	rec = func(prefix string, n int) {
 		if n == 0 {
